@@ -591,6 +591,19 @@ class DriverRules:
                         rec.ob('R15.b', 'R15.b@%s::live-counter-zero' % fkey(f), okl, '%s:%s' % (f['file'], f['line']),
                                'T=%d: live counter is %s when %s returns' % (T, show(lv) if lv else '?', f['name']))
         rec.count('R15.a operation exits', n, 3)
+        # R15.h: no operation writes the objects its caller owns and will hand to the next operation (key buffer, settings)
+        bad = set()
+        for T in self.Ts[:2]:
+            for op in ('encrypt', 'decrypt', 'verify'):
+                I, out = self.run(op, T)
+                for s, v in out:
+                    for e in s.comps.get('log', ()):
+                        if e[0] == 'CALLERWRITE':
+                            bad.add((op,) + tuple(e[1:]))
+        for op, obj, what, wh, fn in sorted(bad):
+            rec.ob('R15.h', 'R15.h@%s::writes-caller-%s' % (fn, obj), False, wh,
+                   '%s: %s into the caller\'s %s object: the next operation given the same object starts from different values' % (op, what, obj))
+        rec.ob('R15.h', 'R15.h@%s::caller-objects-untouched' % self.D.RCq, not bad, '', 'no operation writes the caller\'s key buffer or settings object')
 
 
 def _sequence(self):
